@@ -157,146 +157,175 @@ package validate
 // Borrow*: result is a pooled object (fresh or previously redeemed), live afterwards, fields unknown.
 // Redeem*: the object must be non-nil and live (no double redeem, no typed nil in the pool).
 //@ func (schemaValidatorsPool).BorrowValidator
+//@   assume p.Pool != nil
 //@   assume pooltag(p.Pool) == tidof("*SchemaValidator")
 //@   recycled result
 //@   modifies ghost("G$redeemed")
 //@   ensures[C04] result != nil && !redeemed(result)
 //@   ensures[C04] forallp(q, q == result || redeemed(q) == old(redeemed(q)))
 //@ func (schemaValidatorsPool).RedeemValidator
+//@   assume p.Pool != nil
 //@   requires[C04,C11] s != nil && !redeemed(s)
 //@   modifies redeemed(s)
 //@   ensures[C04] redeemed(s)
 //@ func (objectValidatorsPool).BorrowValidator
+//@   assume p.Pool != nil
 //@   assume pooltag(p.Pool) == tidof("*objectValidator")
 //@   recycled result
 //@   modifies ghost("G$redeemed")
 //@   ensures[C04] result != nil && !redeemed(result)
 //@   ensures[C04] forallp(q, q == result || redeemed(q) == old(redeemed(q)))
 //@ func (objectValidatorsPool).RedeemValidator
+//@   assume p.Pool != nil
 //@   requires[C04,C11] s != nil && !redeemed(s)
 //@   modifies redeemed(s)
 //@   ensures[C04] redeemed(s)
 //@ func (sliceValidatorsPool).BorrowValidator
+//@   assume p.Pool != nil
 //@   assume pooltag(p.Pool) == tidof("*schemaSliceValidator")
 //@   recycled result
 //@   modifies ghost("G$redeemed")
 //@   ensures[C04] result != nil && !redeemed(result)
 //@   ensures[C04] forallp(q, q == result || redeemed(q) == old(redeemed(q)))
 //@ func (sliceValidatorsPool).RedeemValidator
+//@   assume p.Pool != nil
 //@   requires[C04,C11] s != nil && !redeemed(s)
 //@   modifies redeemed(s)
 //@   ensures[C04] redeemed(s)
 //@ func (itemsValidatorsPool).BorrowValidator
+//@   assume p.Pool != nil
 //@   assume pooltag(p.Pool) == tidof("*itemsValidator")
 //@   recycled result
 //@   modifies ghost("G$redeemed")
 //@   ensures[C04] result != nil && !redeemed(result)
 //@   ensures[C04] forallp(q, q == result || redeemed(q) == old(redeemed(q)))
 //@ func (itemsValidatorsPool).RedeemValidator
+//@   assume p.Pool != nil
 //@   requires[C04,C11] s != nil && !redeemed(s)
 //@   modifies redeemed(s)
 //@   ensures[C04] redeemed(s)
 //@ func (basicCommonValidatorsPool).BorrowValidator
+//@   assume p.Pool != nil
 //@   assume pooltag(p.Pool) == tidof("*basicCommonValidator")
 //@   recycled result
 //@   modifies ghost("G$redeemed")
 //@   ensures[C04] result != nil && !redeemed(result)
 //@   ensures[C04] forallp(q, q == result || redeemed(q) == old(redeemed(q)))
 //@ func (basicCommonValidatorsPool).RedeemValidator
+//@   assume p.Pool != nil
 //@   requires[C04,C11] s != nil && !redeemed(s)
 //@   modifies redeemed(s)
 //@   ensures[C04] redeemed(s)
 //@ func (headerValidatorsPool).BorrowValidator
+//@   assume p.Pool != nil
 //@   assume pooltag(p.Pool) == tidof("*HeaderValidator")
 //@   recycled result
 //@   modifies ghost("G$redeemed")
 //@   ensures[C04] result != nil && !redeemed(result)
 //@   ensures[C04] forallp(q, q == result || redeemed(q) == old(redeemed(q)))
 //@ func (headerValidatorsPool).RedeemValidator
+//@   assume p.Pool != nil
 //@   requires[C04,C11] s != nil && !redeemed(s)
 //@   modifies redeemed(s)
 //@   ensures[C04] redeemed(s)
 //@ func (paramValidatorsPool).BorrowValidator
+//@   assume p.Pool != nil
 //@   assume pooltag(p.Pool) == tidof("*ParamValidator")
 //@   recycled result
 //@   modifies ghost("G$redeemed")
 //@   ensures[C04] result != nil && !redeemed(result)
 //@   ensures[C04] forallp(q, q == result || redeemed(q) == old(redeemed(q)))
 //@ func (paramValidatorsPool).RedeemValidator
+//@   assume p.Pool != nil
 //@   requires[C04,C11] s != nil && !redeemed(s)
 //@   modifies redeemed(s)
 //@   ensures[C04] redeemed(s)
 //@ func (basicSliceValidatorsPool).BorrowValidator
+//@   assume p.Pool != nil
 //@   assume pooltag(p.Pool) == tidof("*basicSliceValidator")
 //@   recycled result
 //@   modifies ghost("G$redeemed")
 //@   ensures[C04] result != nil && !redeemed(result)
 //@   ensures[C04] forallp(q, q == result || redeemed(q) == old(redeemed(q)))
 //@ func (basicSliceValidatorsPool).RedeemValidator
+//@   assume p.Pool != nil
 //@   requires[C04,C11] s != nil && !redeemed(s)
 //@   modifies redeemed(s)
 //@   ensures[C04] redeemed(s)
 //@ func (numberValidatorsPool).BorrowValidator
+//@   assume p.Pool != nil
 //@   assume pooltag(p.Pool) == tidof("*numberValidator")
 //@   recycled result
 //@   modifies ghost("G$redeemed")
 //@   ensures[C04] result != nil && !redeemed(result)
 //@   ensures[C04] forallp(q, q == result || redeemed(q) == old(redeemed(q)))
 //@ func (numberValidatorsPool).RedeemValidator
+//@   assume p.Pool != nil
 //@   requires[C04,C11] s != nil && !redeemed(s)
 //@   modifies redeemed(s)
 //@   ensures[C04] redeemed(s)
 //@ func (stringValidatorsPool).BorrowValidator
+//@   assume p.Pool != nil
 //@   assume pooltag(p.Pool) == tidof("*stringValidator")
 //@   recycled result
 //@   modifies ghost("G$redeemed")
 //@   ensures[C04] result != nil && !redeemed(result)
 //@   ensures[C04] forallp(q, q == result || redeemed(q) == old(redeemed(q)))
 //@ func (stringValidatorsPool).RedeemValidator
+//@   assume p.Pool != nil
 //@   requires[C04,C11] s != nil && !redeemed(s)
 //@   modifies redeemed(s)
 //@   ensures[C04] redeemed(s)
 //@ func (schemaPropsValidatorsPool).BorrowValidator
+//@   assume p.Pool != nil
 //@   assume pooltag(p.Pool) == tidof("*schemaPropsValidator")
 //@   recycled result
 //@   modifies ghost("G$redeemed")
 //@   ensures[C04] result != nil && !redeemed(result)
 //@   ensures[C04] forallp(q, q == result || redeemed(q) == old(redeemed(q)))
 //@ func (schemaPropsValidatorsPool).RedeemValidator
+//@   assume p.Pool != nil
 //@   requires[C04,C11] s != nil && !redeemed(s)
 //@   modifies redeemed(s)
 //@   ensures[C04] redeemed(s)
 //@ func (formatValidatorsPool).BorrowValidator
+//@   assume p.Pool != nil
 //@   assume pooltag(p.Pool) == tidof("*formatValidator")
 //@   recycled result
 //@   modifies ghost("G$redeemed")
 //@   ensures[C04] result != nil && !redeemed(result)
 //@   ensures[C04] forallp(q, q == result || redeemed(q) == old(redeemed(q)))
 //@ func (formatValidatorsPool).RedeemValidator
+//@   assume p.Pool != nil
 //@   requires[C04,C11] s != nil && !redeemed(s)
 //@   modifies redeemed(s)
 //@   ensures[C04] redeemed(s)
 //@ func (typeValidatorsPool).BorrowValidator
+//@   assume p.Pool != nil
 //@   assume pooltag(p.Pool) == tidof("*typeValidator")
 //@   recycled result
 //@   modifies ghost("G$redeemed")
 //@   ensures[C04] result != nil && !redeemed(result)
 //@   ensures[C04] forallp(q, q == result || redeemed(q) == old(redeemed(q)))
 //@ func (typeValidatorsPool).RedeemValidator
+//@   assume p.Pool != nil
 //@   requires[C04,C11] s != nil && !redeemed(s)
 //@   modifies redeemed(s)
 //@   ensures[C04] redeemed(s)
 //@ func (schemasPool).BorrowSchema
+//@   assume p.Pool != nil
 //@   assume pooltag(p.Pool) == tidof("*spec.Schema")
 //@   recycled result
 //@   modifies ghost("G$redeemed")
 //@   ensures[C04] result != nil && !redeemed(result)
 //@   ensures[C04] forallp(q, q == result || redeemed(q) == old(redeemed(q)))
 //@ func (schemasPool).RedeemSchema
+//@   assume p.Pool != nil
 //@   requires[C04,C11] s != nil && !redeemed(s)
 //@   modifies redeemed(s)
 //@   ensures[C04] redeemed(s)
 //@ func (resultsPool).RedeemResult
+//@   assume p.Pool != nil
 //@   requires[C04,C11] s != nil && (s == emptyResult || !redeemed(s))
 //@   modifies redeemed(s)
 //@   ensures[C04] implies(s != emptyResult, redeemed(s))
@@ -317,6 +346,7 @@ package validate
 //@   loop 2 invariant len(r.cachedFieldSchemata) == 0
 
 //@ func (resultsPool).BorrowResult
+//@   assume p.Pool != nil
 //@   assume pooltag(p.Pool) == tidof("*Result")
 //@   assume !redeemed(emptyResult)
 //@   recycled result
@@ -522,3 +552,24 @@ package validate
 //@   requires[C06] nonnilE(r.Errors) && nonnilE(r.Warnings)
 //@   modifies *
 //@   ensures[C06] result != nil
+
+//@ func NewSchemaValidator
+//@   maypanic
+//@   modifies *
+//@   ensures[C06] (result == nil) == (schema == nil)
+//@   ensures[C06] result == nil || slotsSV(result)
+//@   ensures[C06] result == nil || (result.Options != nil && result.Schema != nil)
+//@ func AgainstSchema
+//@   maypanic
+//@   requires[C06] isJSON(data)
+//@   modifies *
+//@ func newSchemaPropsValidator
+//@   maypanic
+//@   modifies *
+//@   ensures[C06] result != nil && result.Options != nil
+//@ func (*formatValidator).Applies
+//@   requires[C06] isnil(source) || ptrof(source) != nil
+//@   modifies *
+//@ func (*schemaPropsValidator).validateDependencies
+//@   requires[C06] typeis(data, "map[string]interface{}")
+//@   modifies *
